@@ -45,6 +45,20 @@ Definition ip_agree (sender : Z) (payload : list Z) (ntsok : bool) (replies : li
   | _ => false
   end.
 
+(* What an observation says about the NTS side of a payload: f = 2*label + computed.
+   label (0 no, 1 yes, 2 undecided) is what the harness knows by construction: it built the
+   request with a real cookie under a valid key and the right C2S key and left it intact
+   (yes), or it damaged a protected part / used a wrong or expired key / sent bytes that
+   carry no cookie of this server (no).  computed is the verdict of the six exported calls
+   the listeners make, recomputed by the harness.  The property oracle judges by the label,
+   so NTS code that rejects intact requests (or accepts damaged ones) is a violation even
+   though listener and harness would agree with each other; the model takes computed as its
+   NTS input; and the two must agree. *)
+Definition nts_label (f : Z) : Z := f / 2.
+Definition nts_computed (f : Z) : bool := Z.odd f.
+Definition nts_for_oracle (f : Z) : bool := if nts_label f =? 2 then nts_computed f else nts_label f =? 1.
+Definition nts_consistent (f : Z) : bool := (nts_label f =? 2) || Bool.eqb (nts_label f =? 1) (nts_computed f).
+
 (* one step of an IP history, as observed:
    [sender payload ntsok [replies before the sentinel's] sentinel [replies to the sentinel]]
    Two exchanges: the probe and the sentinel (a plain well-formed 48-byte request from the same
@@ -59,9 +73,9 @@ Definition ip_step_verdict (v : value) : option (bool * bool) :=
   | VL [VZ sender; VB payload; VZ nts; VL reps; VB sentinel; VL sreps] =>
       match ip_replies_of reps, ip_replies_of sreps with
       | Some reps, Some sreps =>
-          let ntsok := negb (nts =? 0) in
-          Some (ip_agree sender payload ntsok reps && ip_agree sender sentinel false sreps,
-                C09_hist_ok [mk_obs sender payload ntsok reps; mk_obs sender sentinel false sreps])
+          Some (ip_agree sender payload (nts_computed nts) reps && ip_agree sender sentinel false sreps,
+                nts_consistent nts &&
+                C09_hist_ok [mk_obs sender payload (nts_for_oracle nts) reps; mk_obs sender sentinel false sreps])
       | _, _ => None
       end
   | _ => None
@@ -70,11 +84,11 @@ Definition ip_step_verdict (v : value) : option (bool * bool) :=
 (* a burst: several datagrams sent back to back from one socket, then the sentinel;
    the replies come back in the order of the requests (one listener goroutine, one
    receiving socket), so they are matched first to first (oracle: C09_burst_ok of the model file) *)
-Fixpoint burst_of (l : list value) : option (list (list Z * bool)) :=
+Fixpoint burst_of (l : list value) : option (list (list Z * Z)) :=
   match l with
   | [] => Some []
   | VL [VB p; VZ n] :: t =>
-      match burst_of t with Some ps => Some ((p, negb (n =? 0)) :: ps) | None => None end
+      match burst_of t with Some ps => Some ((p, n) :: ps) | None => None end
   | _ => None
   end.
 
@@ -97,8 +111,11 @@ Definition ip_burst_verdict (v : value) : option (bool * bool) :=
   | VL [VZ sender; VL ps; VL reps; VB sentinel; VL sreps] =>
       match burst_of ps, ip_replies_of reps, ip_replies_of sreps with
       | Some ps, Some reps, Some sreps =>
-          Some (burst_agree sender ps reps && ip_agree sender sentinel false sreps,
-                C09_burst_ok sender ps reps && C09_hist_ok [mk_obs sender sentinel false sreps])
+          Some (burst_agree sender (map (fun pn => (fst pn, nts_computed (snd pn))) ps) reps &&
+                ip_agree sender sentinel false sreps,
+                forallb (fun pn => nts_consistent (snd pn)) ps &&
+                C09_burst_ok sender (map (fun pn => (fst pn, nts_for_oracle (snd pn))) ps) reps &&
+                C09_hist_ok [mk_obs sender sentinel false sreps])
       | _, _, _ => None
       end
   | _ => None
@@ -137,17 +154,28 @@ Definition rev_of (v : value) : option (option (Z * list Z)) :=
   | _ => None
   end.
 
-(* [receiver parsed hdr payload]; parsed = 0: the datagram is not a SCION/UDP packet *)
-Fixpoint scion_replies_of (l : list value) : option (list (Z * scion_hdr * list Z) * bool) :=
+(* a datagram seen: [receiver class hdr payload]; class 1 = SCION [HBH] [E2E] UDP, fully parsed
+   (next-header chain, UDP length and checksum valid); 0 = not parseable; 2 = SCION/SCMP;
+   3 = SCION/UDP with a wrong length or checksum *)
+Fixpoint scion_seen_of (l : list value) : option (list (Z * Z * scion_hdr * list Z)) :=
   match l with
-  | [] => Some ([], true)
-  | VL [VZ rcv; VZ parsed; h; VB r] :: t =>
-      match hdr_of h, scion_replies_of t with
-      | Some rh, Some (rs, ok) => Some ((rcv, rh, r) :: rs, ok && negb (parsed =? 0))
+  | [] => Some []
+  | VL [VZ rcv; VZ cls; h; VB r] :: t =>
+      match hdr_of h, scion_seen_of t with
+      | Some rh, Some rs => Some ((rcv, cls, rh, r) :: rs)
       | _, _ => None
       end
   | _ => None
   end.
+
+Definition strip_cls (l : list (Z * Z * scion_hdr * list Z)) : list (Z * scion_hdr * list Z) :=
+  map (fun x => match x with (rcv, _, rh, r) => (rcv, rh, r) end) l.
+(* everything that came back is a well-formed SCION/UDP datagram *)
+Definition all_udp (l : list (Z * Z * scion_hdr * list Z)) : bool :=
+  forallb (fun x => match x with (_, cls, _, _) => cls =? 1 end) l.
+(* nothing that came back carries a UDP payload: no NTP reply *)
+Definition none_udp (l : list (Z * Z * scion_hdr * list Z)) : bool :=
+  forallb (fun x => match x with (_, cls, _, _) => negb (cls =? 1) && negb (cls =? 3) end) l.
 
 Definition hdr_eqb (a b : scion_hdr) : bool :=
   (h_dst_ia a =? h_dst_ia b) && (h_src_ia a =? h_src_ia b) &&
@@ -160,37 +188,52 @@ Definition scion_agree (cp lp sender : Z) (h : scion_hdr) (payload : list Z) (nt
   (rev : option (Z * list Z)) (replies : list (Z * scion_hdr * list Z)) : bool :=
   match replies with
   | [] => match scion_decision_of cp lp h payload (env_from_obs ntsok payload [] rev) with
-          | SReply _ _ => false | SCrash => false | _ => true end
+          | SNoReply => true | _ => false end
   | [(rcv, rh, r)] =>
       match scion_decision_of cp lp h payload (env_from_obs ntsok payload r rev) with
       | SReply mh out => (rcv =? sender) && hdr_eqb mh rh && list_eqb out r
+      | SForward => list_eqb r payload     (* relayed: the packet's own payload, on its way to another port *)
       | _ => false
       end
   | _ => false
   end.
 
-Definition addressed (cp lp : Z) (h : scion_hdr) : bool :=
-  addr_ok (h_src_raw h) && addr_ok (h_dst_raw h) && (h_udp_dst h =? lp) && negb (lp =? endhost_port).
-
-(* the property speaks about packets addressed to the listener; for the others
-   (wrong L4 port, malformed host address) only "no NTP reply" and the shape of
-   whatever comes back are judged *)
+(* the property oracle for any packet a listener socket receives (Model: C09_scion_any_ok):
+   addressed to the listener => C09_scion_ok; dispatcher rule => at most the relayed payload;
+   otherwise nothing at all *)
 Definition scion_oracle (cp lp sender : Z) (h : scion_hdr) (payload : list Z) (ntsok : bool)
   (rev : option (Z * list Z)) (replies : list (Z * scion_hdr * list Z)) : bool :=
-  if addressed cp lp h then C09_scion_ok sender h payload ntsok rev replies
-  else forallb (fun r => reply_shape_ok (snd r)) replies.
+  C09_scion_any_ok sender cp lp h payload ntsok rev replies.
 
-(* [conn_port local_port sender hdr payload ntsok rev [replies] sentinel_hdr sentinel sentinel_rev [replies to the sentinel]] *)
+(* [conn_port local_port sender hdr payload nts rev [seen] sentinel_hdr sentinel sentinel_rev [seen after the sentinel]] *)
 Definition scion_step_verdict (v : value) : option (bool * bool) :=
   match v with
   | VL [VZ cp; VZ lp; VZ sender; h; VB payload; VZ nts; rev; VL reps; sh; VB sentinel; srev; VL sreps] =>
-      match hdr_of h, rev_of rev, scion_replies_of reps, hdr_of sh, rev_of srev, scion_replies_of sreps with
-      | Some h, Some rev, Some (reps, pok), Some sh, Some srev, Some (sreps, spok) =>
-          let ntsok := negb (nts =? 0) in
-          Some (scion_agree cp lp sender h payload ntsok rev reps && scion_agree cp lp sender sh sentinel false srev sreps,
-                pok && spok &&
-                scion_oracle cp lp sender h payload ntsok rev reps && scion_oracle cp lp sender sh sentinel false srev sreps)
+      match hdr_of h, rev_of rev, scion_seen_of reps, hdr_of sh, rev_of srev, scion_seen_of sreps with
+      | Some h, Some rev, Some reps, Some sh, Some srev, Some sreps =>
+          Some (scion_agree cp lp sender h payload (nts_computed nts) rev (strip_cls reps) &&
+                scion_agree cp lp sender sh sentinel false srev (strip_cls sreps),
+                all_udp reps && all_udp sreps && nts_consistent nts &&
+                scion_oracle cp lp sender h payload (nts_for_oracle nts) rev (strip_cls reps) &&
+                scion_oracle cp lp sender sh sentinel false srev (strip_cls sreps))
       | _, _, _, _, _, _ => None
+      end
+  (* a datagram that is no SCION/UDP packet (garbage, SCMP), then the sentinel from the same socket:
+     [raw what conn_port local_port sender [seen] sentinel_hdr sentinel sentinel_rev [seen after the sentinel]]
+     what (by construction): 0 garbage, 1 SCMP echo/traceroute request over a reversible path, 2 other SCMP.
+     Property: no NTP reply (nothing with a UDP payload comes back), and the listener goes on serving:
+     the sentinel is answered.  Correspondence: nothing comes back, except one SCMP message to the
+     sender for an SCMP request. *)
+  | VL [VB raw; VZ what; VZ cp; VZ lp; VZ sender; VL reps; sh; VB sentinel; srev; VL sreps] =>
+      match scion_seen_of reps, hdr_of sh, rev_of srev, scion_seen_of sreps with
+      | Some reps, Some sh, Some srev, Some sreps =>
+          Some ((if what =? 1
+                 then match reps with [(rcv, cls, _, _)] => (rcv =? sender) && (cls =? 2) | _ => false end
+                 else match reps with [] => true | _ => false end) &&
+                scion_agree cp lp sender sh sentinel false srev (strip_cls sreps),
+                none_udp reps && all_udp sreps &&
+                scion_oracle cp lp sender sh sentinel false srev (strip_cls sreps))
+      | _, _, _, _ => None
       end
   | _ => None
   end.
